@@ -369,6 +369,12 @@ def same_subword_twice_shapes():
 def family_c09(tier, seed):
     L, S, A, F, Sub, Ref, Opt, Many = gram.Lit, gram.Seq, gram.Alt, gram.Fb, gram.Sub, gram.Ref, gram.Opt, gram.Many
     out = list(same_subword_twice_shapes())
+    # one literal expected in one state at two || levels, the later level written first, next to another first-level candidate
+    out.append({'command': 'cmd', 'variants': [S(F(L('x'), L('a')), L('p')), S(L('a'), L('q'))], 'defs': []})
+    out.append(gram.mk('cmd', A(S(F(L('x'), L('a')), L('p')), S(L('a'), L('q')))))
+    out.append(gram.mk('cmd', A(S(F(L('a'), L('b')), L('x')), S(F(L('b'), L('a')), L('y')))))
+    out.append(gram.mk('cmd', A(S(F(L('x'), L('y'), L('a')), L('p')), S(F(L('z'), L('a')), L('q')), S(L('a'), L('r')))))
+    out.append(gram.mk('cmd', S(A(Sub(L('--o='), F(L('x'), L('a'))), Sub(L('--o='), A(L('a'), L('b')))), L('z'))))
     tails = [L('a'), L('b'), S(L('a'), L('b')), Opt(L('a')), Many(L('b'))]
     heads = ['foo', 'fo']
     # the same literal at the start of two || branches / | branches / call variants
@@ -706,6 +712,11 @@ def family_c12(tier, seed):
         for sec in seconds[f][:(2 if tier == 'quick' else 3)]:
             out.append(gram.mk('cmd', S(Sub(L('--r='), A(*[L(v) for v in f]), L(','), A(*[L(v) for v in sec])), A(L('x'), L('y')))))
             out.append(gram.mk('cmd', S(Sub(L('--r='), A(*[L(v) for v in sec]), L(','), A(*[L(v) for v in f])), L('x'))))
+    # a prefix chain spread over || levels, the shorter value at the more preferred level
+    F = gram.Fb
+    for (lv0, lv1) in ((('a', 'ab'), ('abcd',)), (('x86', 'arm'), ('x86_64', 'arm64')), (('1',), ('10', '100'))):
+        out.append(gram.mk('cmd', S(Sub(L('--opt='), F(A(*[L(v) for v in lv0]) if len(lv0) > 1 else L(lv0[0]), A(*[L(v) for v in lv1]) if len(lv1) > 1 else L(lv1[0]))), L('x'))))
+        out.append(gram.mk('cmd', S(Sub(L('-t'), F(A(*[L(v) for v in lv1]) if len(lv1) > 1 else L(lv1[0]), A(*[L(v) for v in lv0]) if len(lv0) > 1 else L(lv0[0]))), A(L('x'), L('y')))))
     return [('prefix-chain value sets', out), long_candidate_family(PROBES)]
 
 
